@@ -274,7 +274,10 @@ PROPS['C02']['determined'] = lambda case, out: 'crash' if out.startswith('crash'
 PROPS['C02']['determined_what'] = 'whether event processing crashes or hangs'
 PROPS['C01']['determined'] = _kan_final
 PROPS['C01']['determined_what'] = 'what is left down at the OS after the quiet tail, and whether kanata reports idle'
-PROPS['C07']['determined'] = None   # the property compares two runs of the implementation; the paired-run oracle decides
+# the property compares two runs of the implementation; the paired-run oracle decides. For
+# configurations outside the kanata-level model the harness compares the two runs itself (PAIR)
+PROPS['C07']['determined'] = lambda case, out: (out.split(' :: PAIR ')[1].split('@')[0] if ' :: PAIR ' in out else None)
+PROPS['C07']['determined_what'] = 'whether the blocking loop and the always-ticking loop emit the same OS events at the same times (configurations outside the kanata-level model: decided on the real code alone)'
 PROPS['C14']['determined'] = _kan_repeats
 PROPS['C14']['determined_what'] = 'what each OS repeat event produced'
 
